@@ -17,6 +17,7 @@ const (
 	dAssume
 	dOblig
 	dConc
+	dChoice
 )
 
 type decision struct {
@@ -26,7 +27,8 @@ type decision struct {
 	taken  bool
 	hasAlt bool
 	pushed bool
-	val    int64 // dConc: the value tried
+	val    int64 // dConc: the value tried; dChoice: the current value
+	n      int64 // dChoice: number of values
 }
 
 // Input is one symbolic input of a path, in declaration order.
@@ -70,6 +72,7 @@ type runState struct {
 	obs      []observation
 	mapOrder bool
 	mapOrderMax int
+	mapSite, mapSiteBudget, mapSiteHits int
 	tmCivil  map[string][2]int64 // day term -> (year, month) decided on this path
 	assumeN  int
 	tryDepth int
@@ -102,6 +105,7 @@ type Stats struct {
 	Inconclusive  []string
 	Witnesses     []Witness
 	Unwind        int
+	MapSiteHits   int
 	Steps         int64
 	Wall          time.Duration
 	ObligSamples  []string
@@ -340,8 +344,20 @@ func (in *Interp) choice(name string, n int) int {
 	nm := r.uniq(name)
 	t := in.TC.Declare(smtName(nm), IntSort)
 	r.inputs = append(r.inputs, Input{Name: nm, Kind: "choice", Term: t, Aux: n})
-	in.assume(in.TC.And(in.TC.App(BoolSort, "<=", IntConst(0), t), in.TC.App(BoolSort, "<", t, IntConst(int64(n)))))
-	return int(in.concretize(&Sym{T: t}, "choice "+name).(int64))
+	// a choice variable is a fresh integer constrained only to 0..n-1: every value is feasible,
+	// so the values are enumerated directly (no solver query); the equality is still asserted so
+	// that models of the path carry the value for replay
+	key := "choice:" + nm
+	if d := in.nextDecision(dChoice, key); d != nil {
+		return int(d.val)
+	}
+	if in.exp != nil {
+		in.exp.Stats.Branches++
+	}
+	in.Solver.Push()
+	in.Solver.Assert(in.TC.Eq(t, IntConst(0)))
+	in.pushDecision(decision{kind: dChoice, cond: key, term: t, taken: true, hasAlt: n > 1, pushed: true, val: 0, n: int64(n)})
+	return 0
 }
 
 // ---------------------------------------------------------------- obligations
@@ -526,7 +542,7 @@ func (e *Explorer) Explore(fn *ssa.Function) {
 			break
 		}
 		e.Stats.Paths++
-		in.run = &runState{stack: stack, names: map[string]int{}, tmCivil: map[string][2]int64{}}
+		in.run = &runState{stack: stack, names: map[string]int{}, tmCivil: map[string][2]int64{}, mapSite: -1}
 		in.overrides = map[string]value{}
 		in.undoOn = true
 		stepsBefore := in.Steps
@@ -536,6 +552,9 @@ func (e *Explorer) Explore(fn *ssa.Function) {
 		in.rollback()
 		in.undoOn = false
 		stack = in.run.stack
+		if in.run.mapSiteHits > 0 {
+			e.Stats.MapSiteHits += in.run.mapSiteHits
+		}
 		switch outcome {
 		case "done":
 			e.Stats.Completed++
@@ -572,6 +591,11 @@ func (e *Explorer) Explore(fn *ssa.Function) {
 					d.taken = false
 					in.Solver.Push()
 					in.Solver.Assert(in.TC.Not(d.term))
+				case dChoice:
+					d.val++
+					d.hasAlt = d.val < d.n-1
+					in.Solver.Push()
+					in.Solver.Assert(in.TC.Eq(d.term, IntConst(d.val)))
 				}
 				flipped = true
 				break
